@@ -467,12 +467,17 @@ def check_results(spec: dict) -> dict:
     schema = spec.get("schema", "same")
     if schema != "same":
         raw = std_json.loads(text)
+        written = raw["schema"]
+        if isinstance(schema, str) and schema.startswith("+"):
+            schema = written + int(schema[1:])      # a file from a NEWER antiSMASH: must be refused, not loaded as current
         if schema == "absent":
             raw.pop("schema")
         else:
             raw["schema"] = schema
         compatible = schema == "absent" or (isinstance(schema, int) and not isinstance(schema, bool)
-                                            and schema in (1, 2, 3, 4))
+                                            and (schema == written or schema in (1, 2, 3)))
+        classes.append("schema_newer" if isinstance(schema, int) and not isinstance(schema, bool) and schema > written
+                       else "schema_older_or_other")
         try:
             other = AntismashResults.from_file(io.StringIO(std_json.dumps(raw)))
         except ValueError:
@@ -858,7 +863,8 @@ def results_specs():
     def specs(draw):
         spec = draw(rec.record_specs(max_len=2500))
         spec["original_id"] = draw(st.sampled_from([None, None, "a very long original identifier.1"]))
-        spec["schema"] = draw(st.sampled_from(["same", "same", "absent", 1, 2, 3, 4, 5, 0, 99, -1, "4", 4.5]))
+        spec["schema"] = draw(st.sampled_from(["same", "same", "absent", 1, 2, 3, 4, 0, -1, "4", 4.5, None,
+                                               "+1", "+1", "+2", "+10", 99, 2 ** 40]))
         spec["io"] = draw(st.sampled_from(["handle", "handle", "handle", "path", "bz2"]))
         return spec
     return specs()
